@@ -4,7 +4,7 @@ package dsim
 
 func (r *Run) profileSetup() bool {
 	switch r.plan.Profile {
-	case "crud", "tx", "txenum":
+	case "crud", "tx", "txenum", "integrity":
 		return true
 	}
 	r.res.HarnessErr = "unknown profile " + r.plan.Profile
@@ -19,5 +19,7 @@ func (r *Run) profileFinal() {
 	switch r.plan.Profile {
 	case "crud", "tx", "txenum":
 		r.integritySoundness()
+	case "integrity":
+		r.integrityPhase()
 	}
 }
